@@ -1228,6 +1228,16 @@ func (g *Gen) opRecheckBurst(conns []*Client) {
 		return
 	}
 	target := g.sample("rctarget", fresh)
+	// more subscriptions on the connection first (left unanswered): the order in
+	// which a closing connection walks its subscriptions is the iteration order
+	// of a map, and the later the target is entered the likelier it comes
+	// before its holder
+	for i, nf := 0, rapid.IntRange(0, 5).Draw(g.t, "rcfillers"); i < nf; i++ {
+		f := g.sample("rcfiller", fresh)
+		if f != target {
+			g.w.Exec(Op{K: "creq", C: c.Idx, ID: g.nextID(c), M: "subscribe." + f})
+		}
+	}
 	d := g.w.Svc.def(holder)
 	v := g.w.Svc.variant(d, holder, "")
 	ref := Ref(target)
